@@ -80,6 +80,11 @@ def replay (j : Json) : R Verdict := do
       if !reachable && failAt.all (fun k => k ≥ n) then
         if calls != n || a + rj != n then
           pf := pf ++ [s!"C03: budget {n}, nothing else ended the run, but {calls} evaluations were started and the report counts {a} + {rj}"]
+      -- C06: an evaluation that returned NaN is a failure; the run cannot end with a success report
+      match failAt with
+      | some k => if calls > k && !reachable then
+          pf := pf ++ [s!"C06: evaluation {k} returned NaN (a failure), yet the run went on ({calls} evaluations) and returned a success report"]
+      | none => pure ()
       if reachable then tags := "run:target" :: tags
     | .error _ =>
       tags := s!"run:{ret.compress.take 12}" :: tags
